@@ -22,7 +22,12 @@ def runC07 (op : String) (j : Json) : R Json := do
     pure (Json.mkObj [("model", jNats (Np.unique l))])
   | "index_of" =>
     let arr ← getInts j "arr"; let lookup ← getNats j "lookup"
-    pure (Json.mkObj [("model", jOpt jInts (Np.indexOf arr lookup))])
+    -- `spec_only`: lookups with ids in the millions — the table model (a list with max(lookup)+2 cells) is not
+    -- built; the answer is the Lean definition `positionsIn` (= the model by theorem `indexOf_spec`)
+    let specOnly ← if hasFld j "spec_only" then getBool j "spec_only" else pure false
+    let spec := ("spec", jInts (positionsIn arr lookup))
+    if specOnly then pure (Json.mkObj [spec]) else
+    pure (Json.mkObj [("model", jOpt jInts (Np.indexOf arr lookup)), spec])
   | "flatten" =>
     let d ← fld j "d" >>= asList (asList asNat)
     pure (Json.mkObj [("model", jNats (flattenPerCluster (d.map fun v => (0, v))))])
